@@ -211,24 +211,41 @@ def QD.detClosure : Nat → QD → QD
       | some d' => QD.detClosure fuel d'
       | none => d
 
-def addDedup (acc : List QD) (d : QD) : List QD := if acc.any (fun x => x.key == d.key) then acc else acc ++ [d]
+def addDedup (acc : List (String × QD)) (d : QD) : List (String × QD) :=
+  let k := d.key
+  if acc.any (fun x => x.1 == k) then acc else acc ++ [(k, d)]
+
+/-- fast path: the whole run to quiescence if at no point two producers are about to re-lock at once -/
+def QD.closureUnique : Nat → QD → Option QD
+  | 0, d => some d
+  | fuel + 1, d =>
+    let d := QD.detClosure 10000 d
+    match d.prods.filter (fun p => (d.fireF (.relockTok p)).isSome) with
+    | [] => some d
+    | [p] => (d.applyLabel (.relockTok p)).bind (QD.closureUnique fuel)
+    | _ => none
 
 /-- breadth-first over the re-lock choices -/
-def QD.closureAll : Nat → List QD → List QD → List QD
-  | 0, frontier, done => frontier.foldl addDedup done
+def QD.closureBFS : Nat → List (String × QD) → List (String × QD) → List (String × QD)
+  | 0, frontier, done => frontier.foldl (fun acc x => addDedup acc x.2) done
   | fuel + 1, frontier, done =>
     match frontier with
     | [] => done
     | _ =>
-      let step := frontier.foldl (fun (acc : List QD × List QD) d =>
-        let d := QD.detClosure 10000 d
+      let step := frontier.foldl (fun (acc : List (String × QD) × List (String × QD)) x =>
+        let d := QD.detClosure 10000 x.2
         let woken := d.prods.filter (fun p => (d.fireF (.relockTok p)).isSome)
         match woken with
         | [] => (acc.1, addDedup acc.2 d)
         | _ => (woken.foldl (fun fr p => match d.applyLabel (.relockTok p) with
                   | some d' => addDedup fr d'
-                  | none => fr) acc.1, acc.2)) (([] : List QD), done)
-      QD.closureAll fuel step.1 step.2
+                  | none => fr) acc.1, acc.2)) (([] : List (String × QD)), done)
+      QD.closureBFS fuel step.1 step.2
+
+def QD.closureAll (d : QD) : List QD :=
+  match QD.closureUnique 64 d with
+  | some d' => [d']
+  | none => (QD.closureBFS 64 [("", d)] []).map (·.2)
 
 structure QH where
   cur : QD := {}
@@ -246,7 +263,7 @@ def QH.resolveWith (h : QH) (line : Option String) : QH :=
 
 def QH.start (h : QH) (ds : Option (List QD)) : QH :=
   match ds with
-  | some (d :: _) => { h with cands := QD.closureAll 64 (match ds with | some l => l | none => [d]) [] }
+  | some (d :: _) => { h with cands := d.closureAll }
   | _ => { h with cur := { h.cur with bad := true }, deferred := h.deferred ++ ["obs bad-step"] }
 
 def mkQueueHandler (persistent : Bool) : Handler QH where
